@@ -91,6 +91,8 @@ extern long OPS[OP_MAX];
  * calling thread's next call at the site and disarmed again if that call never happened */
 int reg_fault_arm(int id, int want, int site, int err);
 void reg_fault_disarm(int site);
+long faults_fired_total(void);
+void unexplained_failure(const char *what, int id, long fired_before);
 void note_progress(struct rthr *th);
 void hb_release(void *a);
 void hb_acquire(void *a);
